@@ -70,6 +70,8 @@ struct PConn {
     epoch: u32,
     /// the driver's (buf_alloc, fwd_cnt) as last seen in a packet from the driver
     seen: Option<(u32, u32)>,
+    /// the driver has requested this connection (the peer may respond)
+    got_request: bool,
 }
 
 impl PConn {
@@ -80,6 +82,7 @@ impl PConn {
         self.base_tx = self.tx_pos;
         self.seen = None;
         self.open = false;
+        self.got_request = false;
         self.epoch += 1;
     }
     fn tx_cnt(&self) -> u32 {
@@ -122,6 +125,8 @@ struct Model {
     next_id: u32,
     /// epoch of the sending peer connection for every packet in flight, in sending order
     inflight_epochs: VecDeque<u32>,
+    /// sending peer connection for every packet in flight, in sending order
+    inflight_peers: VecDeque<usize>,
 }
 
 impl Model {
@@ -133,7 +138,7 @@ impl Model {
             return i;
         }
         self.next_id += 1;
-        self.peers.push(PConn { peer, local, id: self.next_id, tx_pos: 0, rx_pos: 0, cap: 0, consumed_pos: 0, base_rx: 0, base_tx: 0, open: false, epoch: 0, seen: None });
+        self.peers.push(PConn { peer, local, id: self.next_id, tx_pos: 0, rx_pos: 0, cap: 0, consumed_pos: 0, base_rx: 0, base_tx: 0, open: false, epoch: 0, seen: None, got_request: false });
         self.peers.len() - 1
     }
     fn exp(&self, c: &MConn, op: u16, payload_len: u32, flags: u32) -> ExpPkt {
@@ -183,8 +188,14 @@ fn check_tx(m: &mut Model, site: &str, want: &[ExpPkt]) {
         let pi = m.pfind(e.peer, e.local);
         if g.op == OP_REQUEST {
             m.peers[pi].restart();
+            m.peers[pi].got_request = true;
         }
-        m.peers[pi].seen = Some((g.buf_alloc, g.fwd_cnt));
+        // A peer that has closed or re-requested the connection is waiting for the driver's
+        // RESPONSE (or REQUEST): credit carried by other packets still in flight belongs to the
+        // previous life of the (peer, port) pair and an honest peer does not act on it.
+        if m.peers[pi].open || g.op == OP_REQUEST || g.op == OP_RESPONSE {
+            m.peers[pi].seen = Some((g.buf_alloc, g.fwd_cnt));
+        }
         match g.op {
             OP_RESPONSE => m.peers[pi].open = true,
             OP_RST | OP_SHUTDOWN => m.peers[pi].open = false,
@@ -215,7 +226,7 @@ impl TransportFn<()> for Run {
         }
         with(|w| w.check_no_lost_wakeup("vsock-new"));
         let mut mgr: Mgr<T> = VsockConnectionManager::new_with_capacity(sock, self.cap);
-        let mut m = Model { cap: self.cap, listening: vec![], conns: vec![], peers: vec![], next_id: 0, inflight_epochs: VecDeque::new() };
+        let mut m = Model { cap: self.cap, listening: vec![], conns: vec![], peers: vec![], next_id: 0, inflight_epochs: VecDeque::new(), inflight_peers: VecDeque::new() };
         let peers_pool: [(u64, u32); 4] = [(2, 1000), (2, 1001), (7, 1000), (0xffff_ffff_0000_0005, 9)];
         let ports: [u32; 4] = [80, 81, 4321, 0xffff_fff0];
         let n_ops = 10 + choose(150);
@@ -433,7 +444,14 @@ impl TransportFn<()> for Run {
                     }
                     let kind = choose(if self.garbage { 14 } else { 9 });
                     let kind = forced_kind.unwrap_or(kind);
+                    // An honest peer starts a new life of a (peer, port) pair only once the driver
+                    // has dealt with everything it sent in the previous one: otherwise answers to
+                    // the old life are indistinguishable from answers to the new one (a protocol
+                    // race, not a driver defect). The garbage batches do not have this restraint.
+                    let waiting = !self.garbage && m.inflight_peers.contains(&pi);
                     let mut p = match kind {
+                        0 if waiting && !m.peers[pi].open => m.peers[pi].hdr(OP_CREDIT_REQUEST, 0),
+                        1 if waiting && !m.peers[pi].open && !m.peers[pi].got_request => m.peers[pi].hdr(OP_CREDIT_REQUEST, 0),
                         0 => {
                             if m.peers[pi].open && !self.garbage {
                                 // an honest peer does not request a connection it believes open
@@ -445,8 +463,8 @@ impl TransportFn<()> for Run {
                         }
                         1 => {
                             // an honest peer only responds to a request it has seen
-                            if m.peers[pi].seen.is_some() || self.garbage {
-                                m.peers[pi].open = m.peers[pi].seen.is_some();
+                            if m.peers[pi].got_request || m.peers[pi].open || self.garbage {
+                                m.peers[pi].open |= m.peers[pi].got_request;
                                 m.peers[pi].hdr(OP_RESPONSE, 0)
                             } else {
                                 m.peers[pi].restart();
@@ -517,6 +535,7 @@ impl TransportFn<()> for Run {
                     let bytes = p.encode();
                     oplog(|| format!("peer {peer:?} -> port {local}: op {} len {} payload {} buf_alloc {} fwd_cnt {}", p.op, p.len, p.payload.len(), p.buf_alloc, p.fwd_cnt));
                     m.inflight_epochs.push_back(m.peers[pi].epoch);
+                    m.inflight_peers.push_back(pi);
                     with(|w| {
                         w.personality::<VsockDev>().outbound.push_back(bytes);
                         w.run_device(2);
@@ -540,6 +559,7 @@ impl TransportFn<()> for Run {
                             });
                             let p = Pkt::decode(&raw).expect("harness packet");
                             let epoch = m.inflight_epochs.pop_front().unwrap_or(0);
+                            m.inflight_peers.pop_front();
                             let pi = m.pfind((p.src_cid, p.src_port), p.dst_port);
                             let stale = epoch != m.peers[pi].epoch;
                             self.model_poll(&mut m, &p, &r, stale);
